@@ -336,11 +336,18 @@ fn eval_inner(case: &Case, clock: &Clock, ex: &mut Exec, age: &mut u64) -> Verdi
     let mut unknown_answer = false;
     let mut peer_ts = 0u32;
     let mut skipped = 0u64;
+    // Once the peer has announced an acknowledgement window, a failing handle_input call may already
+    // have given an Acknowledgement to the serializer (the API then loses it), so a later compressed
+    // header could refer to a chunk the peer never saw: from then on an Err ends the history.  Before
+    // that nothing can have been serialized ahead of the failing message (one message per feed), and
+    // the history goes on after the error, which is how "the failed answer changed no state" is seen.
+    let mut window_set = false;
+    let mut continued_after_error = false;
 
     for (idx, (op, cut, wild)) in case.ops.iter().enumerate() {
         // generation shaping only (never used for judging): operations that end the history with a
         // handle_input error are mostly skipped so that histories stay deep
-        if *wild >= 64 && !model.unspecified {
+        if *wild >= 64 && !model.unspecified && window_set {
             let ends_history = match op {
                 COp::Audio { .. } | COp::Video { .. } => !matches!(model.st, St::PlayRequested | St::Playing),
                 COp::OnStatus { kind } => match kind % 6 {
@@ -434,6 +441,9 @@ fn eval_inner(case: &Case, clock: &Clock, ex: &mut Exec, age: &mut u64) -> Verdi
             COp::PeerChunkSize(n) => Concrete::Peer { rm: RM::SetChunkSize(0), msid: 0, ts: peer_ts, cut: *cut, chunk: Some((*n).clamp(1, 0x7FFF_FFFF)) },
             COp::UnknownCommand { k } => Concrete::Peer { rm: command(["onBWDone", "onFCPublish", "close"][*k as usize % 3], 0.0, V::Null, vec![num(8192.0)]), msid: 0, ts: peer_ts, cut: *cut, chunk: None },
         };
+        if matches!(op, COp::WindowAck { .. }) {
+            window_set = true;
+        }
         let shift = clock.shift_before(idx, case.ops.len());
         if shift > 0 {
             ex.sess.verif_shift_clock(shift);
@@ -732,12 +742,15 @@ fn eval_inner(case: &Case, clock: &Clock, ex: &mut Exec, age: &mut u64) -> Verdi
         traces.push(norm_obs(&o));
         let fatal = o.err.is_some() && matches!(concrete, Concrete::Peer { .. });
         log.push(concrete);
-        if fatal {
-            // an Err from handle_input is terminal: every caller in the repository closes the
-            // connection on it (results gathered earlier in that call are lost by the API), so
-            // the history ends here
+        if fatal && window_set {
+            // an Err from handle_input is terminal once acknowledgements are due: every caller in
+            // the repository closes the connection on it (results gathered earlier in that call are
+            // lost by the API), so the history ends here
             ended_by_error = true;
             break;
+        }
+        if fatal {
+            continued_after_error = true;
         }
     }
     // twin run without the inert operations: everything else must be observed identically
@@ -766,6 +779,7 @@ fn eval_inner(case: &Case, clock: &Clock, ex: &mut Exec, age: &mut u64) -> Verdi
     obs.class_if(model.unspecified, "unspecified-state-reached");
     obs.class_if(!inert.is_empty(), "twin-run-compared");
     obs.class_if(ended_by_error, "history-ended-by-handle-input-error");
+    obs.class_if(continued_after_error, "history-continued-after-handle-input-error");
     obs.count("operations-executed", log.len() as u64 - skipped);
     obs.class(match model.st {
         St::Disconnected => "ends-disconnected",
